@@ -147,6 +147,11 @@ func (s *Share[E]) ToAdditive(to *unanimity.Unanimity) (*additive.Share[E], erro
 	if !to.Shareholders().Contains(s.id) {
 		return nil, sharing.ErrMembership.WithMessage("share ID %d is not in access structure", s.id)
 	}
+	if len(s.v) == 0 {
+		// a holder that lies in every maximal unqualified set owns no piece, so the group cannot be
+		// read off the share; Scheme.ConvertShareToAdditive handles this case
+		return nil, sharing.ErrValue.WithMessage("share %d has no pieces", s.id)
+	}
 	group := algebra.StructureMustBeAs[algebra.Group[E]](slices.Collect(maps.Values(s.v))[0].Structure())
 	shareValue := group.OpIdentity()
 	for maxUnqualifiedSet, additiveShare := range s.v {
